@@ -134,3 +134,65 @@ func concurrentRegistry(r *vk.Run) {
 	}
 	r.Require("concurrent-registry-runs", 100)
 }
+
+// reentrantCallbacks: a change callback that itself uses the router (Has, Get, Add of another name, Remove of
+// another name) must not block: callbacks are documented to run with no router lock held. Every transition kind is
+// produced once per re-entrant call: Add of a new name, Add replacing a client, Remove, and the first Get that
+// commits a factory client. A call that has not returned at the quiescent point after it is stuck behind its own
+// callback.
+func reentrantCallbacks(r *vk.Run) {
+	type client struct{ id string }
+	inner := []string{"has", "get", "add-other", "remove-other"}
+	outer := []string{"add-new", "add-replace", "remove", "first-get"}
+	idx := 0
+	for _, in := range inner {
+		for _, out := range outer {
+			idx++
+			if !r.Mine(idx) {
+				continue
+			}
+			var rt router.Router
+			calls := 0
+			rt = router.NewRouter(
+				router.WithFactory(func(name string) (any, error) { return &client{"factory:" + name}, nil }),
+				router.WithOnChange(func(c router.Change) {
+					if c.Name == "other" {
+						return // the transition caused by the callback itself
+					}
+					calls++
+					switch in {
+					case "has":
+						rt.Has(c.Name)
+					case "get":
+						_, _ = rt.Get(c.Name)
+					case "add-other":
+						rt.Add("other", &client{"other"})
+					case "remove-other":
+						rt.Remove("other")
+					}
+				}))
+			t := vk.Go(func() {
+				switch out {
+				case "add-new":
+					rt.Add("x", &client{"x1"})
+				case "add-replace":
+					rt.Add("x", &client{"x1"})
+					rt.Add("x", &client{"x2"})
+				case "remove":
+					rt.Add("x", &client{"x1"})
+					rt.Remove("x")
+				case "first-get":
+					_, _ = rt.Get("made")
+				}
+			})
+			vk.Quiesce()
+			r.Eval(1)
+			r.Count("reentrant-callback-scenarios", 1)
+			r.Distinct("reentrant|" + in + "|" + out)
+			if !t.Done() {
+				r.Violation("C12/registry/callback-under-lock/"+out+"/"+in, fmt.Sprintf("%s with a change callback that calls %s on the same router has not returned at the quiescent point after it (%d callbacks had started): the callback runs while the router still holds its lock\n%s", out, in, calls, vk.DescribeGs(vk.LibraryGoroutines(vk.Goroutines(), nil))), map[string]any{"outer": out, "inner": in})
+				return // the stuck goroutine stays; later quiescence checks of this worker would be disturbed
+			}
+		}
+	}
+}
